@@ -275,6 +275,17 @@ func init() {
 	models["time.Now"] = func(e *Engine, st *State, args []Value, call *ssa.Call, pos token.Pos) Value {
 		// time.Time{wall uint64, ext int64, loc *Location}: wall without the monotonic bit, ext = seconds since year 1.
 		// A fresh, non-decreasing instant (whole seconds, 2001..2100).
+		if e.fixedClock {
+			// index option fixed_clock: the wall clock is 2020-01-01 plus one second per call (harnesses
+			// whose subject is not wall-clock arithmetic; time.Time.Sub multiplies by 10^9)
+			modelsUsed["time.Now: fixed instants one second apart (fixed_clock)"]++
+			n := uint64(0)
+			if st.clock != nil && st.clock.k {
+				n = st.clock.c - 63713433600 + 1
+			}
+			st.clock = BV(64, 63713433600+n)
+			return StructV{f: []Value{BV(64, 0), st.clock, Pointer{}}}
+		}
 		sec := e.freshVar(st, "time.Now", 64)
 		lo, hi := uint64(63113904000), uint64(66269577600)
 		e.assume(st, And(Cmp("bvuge", sec, BV(64, lo)), Cmp("bvule", sec, BV(64, hi))))
